@@ -217,6 +217,109 @@ def rule_tasks(chk, db, cfgname):
     chk.count('c04.2.tasks', n)
 
 
+def rule_union_roots(chk, db, cfgname):
+    chk.rule('C04.3', 'the identity of a union-find root (DisjointSets::find) is consumed only when every unite on that '
+             'structure ran sequentially: which element becomes the root of a chain depends on the order of the unions, '
+             'so roots produced by unions issued from a parallel region are schedule-dependent (the partition, '
+             'consumed through connectedComponents, is not)')
+    n = 0
+    for f in db.functions.values():
+        if not f.get('blocks') or '<lambda' in f['name'] or not f['file'].startswith('src/'):
+            continue
+        ufs = set()
+        for b in f['blocks']:
+            for e in b['ev']:
+                if e.get('k') == 'decl':
+                    for v in e['vars']:
+                        if 'DisjointSets' in (db.T(f, v['t']).get('c') or ''):
+                            ufs.add(v['n'])
+        if not ufs:
+            continue
+        fam = [f] + [g for k, g in db.functions.items() if k.startswith(f['key'] + '::<lambda@')]
+        for uf in sorted(ufs):
+            finds = []
+            for ff in fam:
+                for b in ff['blocks']:
+                    for e in b['ev']:
+                        if e.get('k') == 'call' and T.short(e.get('fn', '')) == 'find' and e.get('recv') is not None and \
+                                (T.root_of(T.strip_copy(e['recv'])) or {}).get('n') == uf:
+                            finds.append(e.get('ln'))
+            # lambdas that unite on uf
+            uniting = {}
+            for ff in fam[1:]:
+                for b in ff['blocks']:
+                    for e in b['ev']:
+                        if e.get('k') == 'call' and T.short(e.get('fn', '')) == 'unite' and e.get('recv') is not None and \
+                                (T.root_of(T.strip_copy(e['recv'])) or {}).get('n') == uf:
+                            uniting[ff['key']] = e.get('ln')
+            if not uniting:
+                chk.count('c04.3.union_finds')
+                chk.obligation(True, {'function': f['name'][:60], 'union-find': uf, 'unions': 'sequential (no lambda)'})
+                continue
+            # names bound to those lambdas, and recorders wrapping them
+            names = {}
+            for ff in fam:
+                for b in ff['blocks']:
+                    for e in b['ev']:
+                        if e.get('k') == 'decl':
+                            for v in e['vars']:
+                                for y in T.walk(v.get('init') or {}):
+                                    if isinstance(y, dict) and y.get('k') == 'lambda' and y.get('fk') in uniting:
+                                        names[v['n']] = y['fk']
+            changed = True
+            while changed:
+                changed = False
+                for ff in fam:
+                    for b in ff['blocks']:
+                        for e in b['ev']:
+                            if e.get('k') == 'decl':
+                                for v in e['vars']:
+                                    if v['n'] not in names and any(isinstance(y, dict) and y.get('k') == 'var' and
+                                                                   y.get('n') in names for y in T.walk(v.get('init') or {})):
+                                        names[v['n']] = 'wrapper'
+                                        changed = True
+            par = []
+            for ff in fam:
+                for b in ff['blocks']:
+                    for e in b['ev']:
+                        if e.get('k') != 'call':
+                            continue
+                        m = T.short(e.get('fn', ''))
+                        mentions = any(isinstance(y, dict) and ((y.get('k') == 'var' and y.get('n') in names) or
+                                                                (y.get('k') == 'lambda' and y.get('fk') in uniting))
+                                       for a in e.get('args', []) for y in T.walk(a))
+                        if not mentions:
+                            continue
+                        if m == 'Collisions':
+                            p = T.arg_of(e, 'parallel')
+                            p0 = T.strip_copy(p) if p is not None else None
+                            seq = p0 is not None and p0.get('k') == 'bool' and p0.get('v') in (False, 0)
+                            if not seq:
+                                par.append((e.get('ln'), 'Collisions(parallel = %s)' % (T.pstr(p)[:30] if p is not None
+                                                                                         else 'default true')))
+                        elif m in ('for_each', 'for_each_n'):
+                            pol = T.pstr(e['args'][0]) if e.get('args') else ''
+                            if 'ExecutionPolicy::Seq' not in pol:
+                                par.append((e.get('ln'), '%s(%s)' % (m, pol[:30])))
+            n += 1
+            chk.count('c04.3.union_finds')
+            ok = not (par and finds)
+            reviewed = None
+            if not ok:
+                for r in load_table().get('union_roots_reviewed', []):
+                    if r['function'] == T.basename(f['name']) and r['union_find'] == uf:
+                        reviewed = r['reason']
+                        ok = True
+            chk.obligation(ok, {'function': f['name'][:60], 'union-find': uf, 'parallel unions': par[:3],
+                                'find() consumed at lines': finds[:4], 'reviewed': reviewed})
+            if not ok:
+                chk.violation('C04.3', f, 'roots of %s consumed after parallel unions' % uf,
+                              'unions on %s are issued from a parallel region (%s) and the root identity returned by '
+                              'find() is consumed at line %s: which element represents a cluster depends on the '
+                              'thread schedule' % (uf, par[0][1], finds[0]), line=finds[0], cfg=cfgname)
+    chk.count('c04.3.lambda_unions', n)
+
+
 def main(chk, tier):
     import db as D
     configs = ['par'] if tier == 'quick' else ['par', 'par-debug']
@@ -274,6 +377,7 @@ def main(chk, tier):
             else:
                 raise AnalysisBroken('C04: bad disposition %s' % d)
         rule_tasks(chk, db, cfgname)
+        rule_union_roots(chk, db, cfgname)
         # table entries that no longer match a source: the table is stale (not a pass)
         for key, e in entries.items():
             if key not in seen and not e.get('optional'):
@@ -282,6 +386,7 @@ def main(chk, tier):
     n = len(configs)
     chk.floor('c04.1.sources', 30 * n)
     chk.floor('c04.2.tasks', 2 * n)
+    chk.floor('c04.3.union_finds', 3 * n)
     return chk.finish(
         'Shape-based enumeration of every schedule-dependent construct in the MANIFOLD_PAR=1 translation units and a '
         'per-source disposition check against a reviewed table: normalisers are verified to exist (and their '
